@@ -82,7 +82,7 @@ def snapshot(k):
     return [{"n": n, "v": v} for n, v in sorted(snap.items())], len(k._context._context)
 
 
-def setup(backend, kind):
+def setup(backend, kind, origin="literal"):
     from klongpy import KlongInterpreter
     k = KlongInterpreter(backend=backend) if backend == "numpy" else KlongInterpreter(backend="torch", device="cpu")
     pr = Probe()
@@ -92,6 +92,11 @@ def setup(backend, kind):
     for src in ["hf::{x+1}", "w::[1.0 2.0]", "b::0.5", "a::[1.5 2.5]", "u::[7 8 9]", "s::3",
                 f"f::{{(+/x*x)+{tail}}}", f"g::{{(x*x)+{tail}}}", f"loss::{{(+/w*w)+(b*b)+{tail}}}", f"gn::{{(w*b)+{tail}}}"]:
         k(src)
+    if origin == "computed":
+        # the variables hold the results of an earlier descent step (under torch: float64 tensors that share storage with the
+        # arrays numeric differentiation works on)
+        for src in ["f0::{+/x*x}", "a::a-0.1*a∇f0", "w::w-0.1*w∇f0"]:
+            k(src)
     return k, pr
 
 
@@ -156,7 +161,7 @@ def run(tier, seed):
         if sc["kind"] == "nonscalar" and sc["form"] not in SCALAR_FORMS:
             continue                                  # a vector-valued function may return any vector
         for backend in ("numpy", "torch"):
-            k, pr = setup(backend, sc["kind"])
+            k, pr = setup(backend, sc["kind"], sc["origin"])
             gsrc, call = src_of[sc["form"]]
             pr.k, pr.n = 0, 0
             try:
@@ -201,8 +206,8 @@ def run(tier, seed):
         sc, backend, gsrc, res, failed, evals = meta[tid]
         t = traces[tid]
         changed = [(p["n"], p["v"], q["v"]) for p in t["pre"] for q in t["post"] if p["n"] == q["n"] and p["v"] != q["v"]]
-        case = {"clause": bad, "form": sc["form"], "backend": backend, "kind": sc["kind"], "k": sc["k"],
-                "what": f"{gsrc} under {backend}, the function fails at evaluation {sc['k']} ({sc['kind']}; {evals} evaluations made): {bad}: "
+        case = {"clause": bad, "form": sc["form"], "backend": backend, "kind": sc["kind"], "k": sc["k"], "origin": sc["origin"],
+                "what": f"{gsrc} under {backend}{' after a descent step a::a-0.1*a∇f0;w::w-0.1*w∇f0' if sc['origin'] == 'computed' else ''}, the function fails at evaluation {sc['k']} ({sc['kind']}; {evals} evaluations made): {bad}: "
                         f"result {res[:80]}; changed variables {changed[:3]}; function before {t['twin'][:60]} after {t['follow'][:60]}"}
         clusters.setdefault((bad, sc["form"], backend, sc["kind"]), []).append(case)
     for key, items in sorted(clusters.items(), key=lambda kv: str(kv[0])):
@@ -218,7 +223,7 @@ def run(tier, seed):
     ev.cov["scenarios_whose_fault_fired"] = fired
     ev.cov["rule"] = ("every scenario of GradPurity.tla: 15 gradient forms (point, variable and symbol points; Jacobians; multi-parameter with "
                       "distinct, reordered and repeated symbols) x fault position k = 0..8 x fault kind (raise, non-scalar result, unknown "
-                      "name), replayed under numpy and torch; non-trivial = the k-th evaluation was reached and failed")
+                      "name) x origin of the variables' values (literal, result of an earlier descent step), replayed under numpy and torch; non-trivial = the k-th evaluation was reached and failed")
     ev.sample({"scenario": meta[0][0], "backend": meta[0][1], "pre": traces[0]["pre"]})
     ev.cov["checker_cmd"] = "tlc GradPurity.tla ; gradient forms with a failing probe under both backends ; tlc FrameTrace.tla"
     ev.assumptions += ["a variable's observable state = value, Python type, dtype and gradient tracking flag",
